@@ -1,11 +1,17 @@
 /-
-  SDBTx — towards the last step of the C03 refinement: what Nibiru's `Commit` and go-ethereum's end-of-transaction write-back persist
+  SDBTx — the last step of the C03 refinement: what Nibiru's `Commit` and go-ethereum's end-of-transaction write-back persist
   after the same transaction body.
 
-  Part 1 (this file, first section): `journal.dirties` is exactly the per-address count of the surviving journal entries that
-  dirtied the address — through appends, and through `journal.Revert`, which decrements per reverted entry and deletes at zero.
+  1. `journal.dirties` is exactly the per-address count of the surviving journal entries that dirtied the address — through
+     appends, and through `journal.Revert`, which decrements per reverted entry and deletes at zero (`CntOK`, `DJ`); every dirtied
+     address still has its object cached (`EC`) — induction over any body (`runT_tx`).
+  2. Relational invariants with the reference state: every address a surviving entry dirtied is materialised in the reference's
+     transaction state (`JG`); an address no surviving entry dirtied shows exactly what the store holds (`Clean`) — `runT_full`.
+  3. Per address: what `Commit` writes (SDBCommit, SDBWF) against what `GethSpec.commit` writes (SDBSpecCommit):
+     `C03_transaction_commit_matches_reference_partial`.
 -/
 import NibiruProofs.SDBWF
+import NibiruProofs.SDBSpecCommit
 
 namespace Nibiru.SDB
 open Nibiru
@@ -540,7 +546,7 @@ theorem ninv_fresh (st : Store) : NInv { txStore := st } :=
 
 /-- **the dirty set at the end of any transaction body** is exactly the set of addresses dirtied by a journal entry that survived
     every revert, and each of them has its state object cached — what `Commit` iterates over -/
-theorem dirties_after_any_body (st : Store) (body : List Tree) :
+theorem C04_dirty_set_after_any_body_partial (st : Store) (body : List Tree) :
     ∃ s', runTL { txStore := st } body = some s' ∧ WF s' ∧
       (∀ a, a ∈ s'.dirties.map (·.1) ↔ ∃ e ∈ s'.journal, e.dirtied = some a) ∧
       (∀ a, a ∈ s'.dirties.map (·.1) → ∃ o, AList.find? s'.objs a = some o) := by
@@ -548,5 +554,621 @@ theorem dirties_after_any_body (st : Store) (body : List Tree) :
   refine ⟨s', hr, n.inv.1, dj_mem s' n.dj, fun a ha => ?_⟩
   obtain ⟨e, he, hd⟩ := (dj_mem s' n.dj a).mp ha
   exact n.ec e he a hd
+
+/-! ### the relational invariants: journal entries vs materialised reference accounts, and clean accounts -/
+
+/-- every address a surviving journal entry dirtied is materialised in the reference's transaction state -/
+def JG (s : S) (g : GethSpec.G) : Prop :=
+  ∀ e ∈ s.journal, ∀ a, e.dirtied = some a → ∃ x, AList.find? g.tx.objs a = some x
+
+/-- an address that no surviving entry dirtied shows exactly what the store holds -/
+def Clean (st : Store) (s : S) : Prop :=
+  ∀ a, a ∉ s.dirties.map (·.1) → OptEqv st a (objOf s a) (loadObj st a)
+
+theorem gobjs_setObj (g : GethSpec.G) (a b : Nat) (x : GethSpec.Acc) :
+    AList.find? (GethSpec.setObj g a x).tx.objs b = if a = b then some x else AList.find? g.tx.objs b := by
+  unfold GethSpec.setObj
+  by_cases h : a = b
+  · subst h; simp [AList.find?_set_self]
+  · simp only [h, if_false]; exact AList.find?_set_ne _ _ _ _ h
+
+/-- the reference never un-materialises an account on a plain call, and materialises the account of every write (a self-destruct
+    only if the account exists) -/
+theorem spec_objs_applyW (g : GethSpec.G) (w : WOp) :
+    (∀ b x, AList.find? g.tx.objs b = some x → ∃ x', AList.find? (GethSpec.apply g (toSpec w)).1.tx.objs b = some x') ∧
+    (∀ a, w.acct = some a → ((∀ a', w ≠ .suicide a') ∨ GethSpec.obj? g a ≠ none) →
+      ∃ x, AList.find? (GethSpec.apply g (toSpec w)).1.tx.objs a = some x) := by
+  have keep : ∀ (a : Nat) (y : GethSpec.Acc) b x, AList.find? g.tx.objs b = some x →
+      ∃ x', AList.find? (GethSpec.setObj g a y).tx.objs b = some x' := by
+    intro a y b x hb
+    rw [gobjs_setObj]
+    by_cases h : a = b
+    · simp [h]
+    · simp only [h, if_false]; exact ⟨x, hb⟩
+  have mat : ∀ (a : Nat) (y : GethSpec.Acc), ∃ x, AList.find? (GethSpec.setObj g a y).tx.objs a = some x := by
+    intro a y; rw [gobjs_setObj]; simp
+  cases w with
+  | addBalance a d => exact ⟨fun b x hb => keep a _ b x hb, fun a' ha _ => by injection ha with ha; subst ha; exact mat _ _⟩
+  | setNonce a n => exact ⟨fun b x hb => keep a _ b x hb, fun a' ha _ => by injection ha with ha; subst ha; exact mat _ _⟩
+  | setCode a c => exact ⟨fun b x hb => keep a _ b x hb, fun a' ha _ => by injection ha with ha; subst ha; exact mat _ _⟩
+  | setState a k v => exact ⟨fun b x hb => keep a _ b x hb, fun a' ha _ => by injection ha with ha; subst ha; exact mat _ _⟩
+  | suicide a =>
+    simp only [toSpec, GethSpec.apply]
+    cases ho : GethSpec.obj? g a with
+    | none =>
+      refine ⟨fun b x hb => ⟨x, hb⟩, fun a' ha hcond => ?_⟩
+      injection ha with ha; subst ha
+      rcases hcond with h | h
+      · exact absurd rfl (h a)
+      · exact absurd ho h
+    | some o => exact ⟨fun b x hb => keep a _ b x hb, fun a' ha _ => by injection ha with ha; subst ha; exact mat _ _⟩
+  | addLog => exact ⟨fun b x hb => ⟨x, hb⟩, fun a' ha _ => by cases ha⟩
+  | addRefund r => exact ⟨fun b x hb => ⟨x, hb⟩, fun a' ha _ => by cases ha⟩
+  | subRefund r =>
+    refine ⟨fun b x hb => ?_, fun a' ha _ => by cases ha⟩
+    simp only [toSpec, GethSpec.apply]
+    split <;> exact ⟨x, hb⟩
+  | addAddr a =>
+    refine ⟨fun b x hb => ?_, fun a' ha _ => by cases ha⟩
+    show ∃ x', AList.find? (GethSpec.apply g (.addAddr a)).1.tx.objs b = some x'
+    rw [(gAddAddr_fields g a).2.1]; exact ⟨x, hb⟩
+  | addSlot a k =>
+    refine ⟨fun b x hb => ?_, fun a' ha _ => by cases ha⟩
+    show ∃ x', AList.find? (GethSpec.apply g (.addSlot a k)).1.tx.objs b = some x'
+    rw [(gAddSlot_fields g a k).2.1]; exact ⟨x, hb⟩
+
+theorem suicide_absent (s : S) (hc : s.cache = none) (a : Nat) (h : objOf s a = none) : (suicide s a).1.journal = s.journal := by
+  obtain ⟨h1, _⟩ := getObj_spec s hc a
+  obtain ⟨j, _⟩ := getObj_dj s a
+  unfold suicide
+  rcases hg : getObj s a with ⟨s1, _ | o⟩
+  · rw [hg] at j; exact j
+  · rw [hg] at h1; simp only at h1; rw [← h1] at h; cases h
+
+theorem jg_write (s : S) (g : GethSpec.G) (hs : Sim s g) (h : JG s g) (w : WOp) :
+    JG (applyW s w) (GethSpec.apply g (toSpec w)).1 := by
+  obtain ⟨keep, mat⟩ := spec_objs_applyW g w
+  cases hacct : w.acct with
+  | none =>
+    obtain ⟨⟨es, happ, hes⟩, _⟩ := desc_counter s w hacct
+    intro e he b hb
+    rw [happ.1] at he
+    rcases List.mem_append.mp he with h1 | h1
+    · obtain ⟨x, hx⟩ := h e h1 b hb; exact keep b x hx
+    · rw [(hes e h1).2] at hb; cases hb
+  | some a =>
+    obtain ⟨es, happ, hes⟩ := (desc_applyW s w a hacct).es
+    intro e he b hb
+    rw [happ.1] at he
+    rcases List.mem_append.mp he with h1 | h1
+    · obtain ⟨x, hx⟩ := h e h1 b hb; exact keep b x hx
+    · rw [(hes e h1).2] at hb
+      injection hb with hb
+      subst hb
+      apply mat a hacct
+      -- a self-destruct journals something only if the account exists — on both sides, by the simulation
+      by_cases hsu : ∃ a', w = .suicide a'
+      · obtain ⟨a', hw⟩ := hsu
+        subst hw
+        have : a' = a := by injection hacct
+        subst this
+        refine Or.inr (fun hnone => ?_)
+        have hr := hs.objs a'
+        rw [hnone] at hr
+        have hobj : objOf s a' = none := by
+          cases ho : objOf s a' with
+          | none => rfl
+          | some o => rw [ho] at hr; exact False.elim hr
+        have hj := suicide_absent s hs.cache a' hobj
+        have hj' : (applyW s (.suicide a')).journal = s.journal := hj
+        rw [happ.1] at hj'
+        have : es = [] := by
+          have := congrArg List.length hj'
+          simp at this
+          exact this
+        rw [this] at h1; cases h1
+      · exact Or.inl (fun a' hw => hsu ⟨a', hw⟩)
+
+theorem objOf_of_find (s s' : S) (b : Nat) (h1 : AList.find? s'.objs b = AList.find? s.objs b) (h2 : s'.txStore = s.txStore) :
+    objOf s' b = objOf s b := by unfold objOf; rw [h1, h2]
+
+theorem clean_write (st : Store) (s : S) (hst : s.txStore = st) (hn : NInv s) (hn' : NInv (applyW s w)) (h : Clean st s) :
+    Clean st (applyW s w) := by
+  have hstore : (applyW s w).txStore = s.txStore :=
+    (applyW_other s w ((w.acct.getD 0) + 1) (by cases h : w.acct <;> simp)).2.1
+  have hc : s.cache = none := hn.inv.1.1
+  intro b hb
+  cases hacct : w.acct with
+  | none =>
+    obtain ⟨⟨es, happ, hes⟩, hobjs⟩ := desc_counter s w hacct
+    have hb0 : b ∉ s.dirties.map (·.1) := by
+      intro hin
+      obtain ⟨e, he, hd⟩ := (dj_mem s hn.dj b).mp hin
+      exact hb ((dj_mem _ hn'.dj b).mpr ⟨e, by rw [happ.1]; exact List.mem_append_left _ he, hd⟩)
+    rw [objOf_of_find s (applyW s w) b (hobjs b) hstore]
+    exact h b hb0
+  | some a =>
+    have d := desc_applyW s w a hacct
+    obtain ⟨es, happ, hes⟩ := d.es
+    have hb0 : b ∉ s.dirties.map (·.1) := by
+      intro hin
+      obtain ⟨e, he, hd⟩ := (dj_mem s hn.dj b).mp hin
+      exact hb ((dj_mem _ hn'.dj b).mpr ⟨e, by rw [happ.1]; exact List.mem_append_left _ he, hd⟩)
+    by_cases hab : a = b
+    · subst hab
+      -- nothing that dirties `a` was appended, so nothing was appended at all, and the call changed no observable
+      have hnil : es = [] := by
+        cases es with
+        | nil => rfl
+        | cons e r =>
+          exfalso
+          apply hb
+          exact (dj_mem _ hn'.dj a).mpr ⟨e, by rw [happ.1]; simp, (hes e (List.mem_cons_self ..)).2⟩
+      obtain ⟨es', hj', _, hobs⟩ := undoW_obs s hc w
+      have : es' = [] := by
+        rw [happ.1, hnil] at hj'
+        have := congrArg List.length hj'
+        simp at this
+        exact this
+      rw [this] at hobs
+      have ho : Obs (applyW s w) s := hobs
+      have e1 := ho.objs a
+      rw [hstore, hst] at e1
+      exact e1.trans (h a hb0)
+    · rw [objOf_of_find s (applyW s w) b (d.other b hab) hstore]
+      exact h b hb0
+
+theorem jg_create (s : S) (g : GethSpec.G) (h : JG s g) (a : Nat) :
+    JG (createAccount s a) (GethSpec.apply g (.createAccount a)).1 := by
+  obtain ⟨⟨es, happ, hes⟩, _, _⟩ := createAccount_desc s a
+  intro e he b hb
+  show ∃ x, AList.find? (GethSpec.setObj g a _).tx.objs b = some x
+  rw [gobjs_setObj]
+  by_cases hab : a = b
+  · simp [hab]
+  · simp only [hab, if_false]
+    rw [happ.1] at he
+    rcases List.mem_append.mp he with h1 | h1
+    · exact h e h1 b hb
+    · rcases (hes e h1).2 with hd | hd
+      · rw [hd] at hb; injection hb with hb; exact absurd hb hab
+      · rw [hd] at hb; cases hb
+
+/-- where `evm.create` may call `CreateAccount`: the persisted account (if any) has no nonce, no code and no storage -/
+def CreateOK (st : Store) (a : Nat) : Prop :=
+  (∀ k, st.slot a k = 0) ∧ ∀ x, st.acct a = some x → x.nonce = 0 ∧ x.codeHash = 0
+
+theorem clean_create (st : Store) (s : S) (hst : s.txStore = st) (hn : NInv s) (hn' : NInv (createAccount s a)) (h : Clean st s)
+    (hok : CreateOK st a) : Clean st (createAccount s a) := by
+  have hc : s.cache = none := hn.inv.1.1
+  obtain ⟨⟨es, happ, hes⟩, _, hother⟩ := createAccount_desc s a
+  obtain ⟨fst, _, _, _⟩ := createAccount_frame s a
+  intro b hb
+  have hb0 : b ∉ s.dirties.map (·.1) := by
+    intro hin
+    obtain ⟨e, he, hd⟩ := (dj_mem s hn.dj b).mp hin
+    exact hb ((dj_mem _ hn'.dj b).mpr ⟨e, by rw [happ.1]; exact List.mem_append_left _ he, hd⟩)
+  by_cases hab : a = b
+  · subst hab
+    have hclean := h a hb0
+    obtain ⟨h1, _⟩ := getObj_spec s hc a
+    obtain ⟨j, _⟩ := getObj_dj s a
+    -- which branch `createAccount` took
+    cases hobj : objOf s a with
+    | none =>
+      -- over nothing: a `createObjectChange` dirties `a`
+      exfalso
+      apply hb
+      have hjr : (createAccount s a).journal = s.journal ++ [.createObject a] := by
+        unfold createAccount
+        rcases hg : getObj s a with ⟨s1, _ | prev⟩
+        · rw [hg] at j; dsimp only; show s1.journal ++ [Entry.createObject a] = _; rw [j]
+        · rw [hg] at h1; simp only at h1; rw [← h1] at hobj; cases hobj
+      exact (dj_mem _ hn'.dj a).mpr ⟨.createObject a, by rw [hjr]; simp, rfl⟩
+    | some prev =>
+      rw [hobj] at hclean
+      have hnew : objOf (createAccount s a) a = some { balance := prev.balance } := by
+        unfold createAccount
+        rcases hg : getObj s a with ⟨s1, _ | p⟩
+        · rw [hg] at h1; simp only at h1; rw [← h1] at hobj; cases hobj
+        · rw [hg] at h1; simp only at h1; rw [← h1] at hobj; injection hobj with hobj; subst hobj
+          dsimp only
+          rw [objOf_setObj]; simp
+      rw [hnew]
+      cases hl : loadObj st a with
+      | none => rw [hl] at hclean; exact False.elim hclean
+      | some L =>
+        rw [hl] at hclean
+        unfold loadObj at hl
+        cases hy : st.acct a with
+        | none => rw [hy] at hl; cases hl
+        | some y =>
+          rw [hy] at hl
+          simp only [Option.map] at hl
+          injection hl with hl
+          obtain ⟨hn0, hc0⟩ := hok.2 y hy
+          subst hl
+          exact ⟨hclean.1, hn0.symm, hc0.symm, rfl, fun _ => rfl, fun _ => rfl⟩
+  · rw [objOf_of_find s (createAccount s a) b (hother b hab) fst, ]
+    exact h b hb0
+
+/-- after a reverted frame: the dirty set and every observable are those of the state at the snapshot -/
+theorem clean_of_obs (st : Store) (s s3 : S) (hst : s.txStore = st) (hn : NInv s) (hn3 : NInv s3) (hj : s3.journal = s.journal)
+    (hobs : Obs s3 s) (h : Clean st s) : Clean st s3 := by
+  intro b hb
+  have hb0 : b ∉ s.dirties.map (·.1) := by
+    intro hin
+    obtain ⟨e, he, hd⟩ := (dj_mem s hn.dj b).mp hin
+    exact hb ((dj_mem _ hn3.dj b).mpr ⟨e, by rw [hj]; exact he, hd⟩)
+  have e1 := hobs.objs b
+  have hst3 : s3.txStore = st := by rw [← hst]; exact hobs.core.store.symm
+  rw [hst3] at e1
+  exact e1.trans (h b hb0)
+
+mutual
+def Tree.OK2 (st : Store) : Tree → Prop
+  | .w _ => True
+  | .create a => CreateOK st a
+  | .frame _ body => Tree.OKL2 st body
+def Tree.OKL2 (st : Store) : List Tree → Prop
+  | [] => True
+  | b :: t => Tree.OK2 st b ∧ Tree.OKL2 st t
+end
+
+mutual
+theorem ok_of_ok2 (st : Store) (b : Tree) (h : Tree.OK2 st b) : Tree.OK st b := by
+  cases b with
+  | w op => exact True.intro
+  | create a => exact h.1
+  | frame ok body => simp only [Tree.OK2] at h; simp only [Tree.OK]; exact okl_of_okl2 st body h
+theorem okl_of_okl2 (st : Store) (bs : List Tree) (h : Tree.OKL2 st bs) : Tree.OKL st bs := by
+  cases bs with
+  | nil => exact True.intro
+  | cons b t => simp only [Tree.OKL2] at h; simp only [Tree.OKL]; exact ⟨ok_of_ok2 st b h.1, okl_of_okl2 st t h.2⟩
+end
+
+/-- everything the last step needs, about a pair of states -/
+structure Full (st : Store) (s : S) (g : GethSpec.G) : Prop where
+  sim : Sim s g
+  ninv : NInv s
+  jg : JG s g
+  clean : Clean st s
+  store : s.txStore = st
+  rev : RevOK s
+  ids : GethSpec.IdsBelow g
+
+mutual
+theorem runT_full (st : Store) (b : Tree) (s : S) (g : GethSpec.G) (h : Full st s g) (hok : Tree.OK2 st b) :
+    ∃ s', runT s b = some s' ∧ Full st s' (runGT g b) ∧ Ext2 s s' ∧ ExtG g (runGT g b) := by
+  have hok1 : Tree.OK s.txStore b := by rw [h.store]; exact ok_of_ok2 st b hok
+  -- the simulation, the Nibiru-side bundle and the bookkeeping come from the earlier inductions on the same tree
+  obtain ⟨sa, hra, hsim, xa, ya⟩ := runT_sim b s g h.sim h.rev h.ids hok1
+  obtain ⟨sb, hrb, hnb, _, _⟩ := runT_tx b s h.ninv h.rev
+  have hsame : sb = sa := by rw [hra] at hrb; exact (Option.some.inj hrb).symm
+  subst hsame
+  have hstore : sb.txStore = st := xa.store.trans h.store
+  have hrev' := xa.revOK h.rev
+  have hids' := ya.idsBelow h.ids
+  refine ⟨sb, hra, ?_, xa, ya⟩
+  cases b with
+  | w op =>
+    have e : sb = applyW s op := (Option.some.inj hra).symm
+    subst e
+    exact ⟨hsim, hnb, by simp only [runGT]; exact jg_write s g h.sim h.jg op,
+      clean_write st s h.store h.ninv hnb h.clean, hstore, hrev', hids'⟩
+  | create a =>
+    have e : sb = createAccount s a := (Option.some.inj hra).symm
+    subst e
+    exact ⟨hsim, hnb, by simp only [runGT]; exact jg_create s g h.jg a,
+      clean_create st s h.store h.ninv hnb h.clean hok, hstore, hrev', hids'⟩
+  | frame ok body =>
+    simp only [Tree.OK2] at hok
+    have hc : s.cache = none := h.sim.cache
+    have hs1 : Sim (snapshot s).1 (GethSpec.apply g .snapshot).1 :=
+      sim_congr_ref (snapshot s).1 g _ rfl rfl
+        ⟨h.sim.cache, h.sim.storeOK, fun a => Rel_congr s (snapshot s).1 g g rfl rfl a _ _ (h.sim.objs a), h.sim.refund,
+          h.sim.logs, h.sim.alA, h.sim.alS⟩
+    have x0 := ext2_snapshot s hc
+    have y0 := extG_snapshot g
+    have f0 : Full st (snapshot s).1 (GethSpec.apply g .snapshot).1 :=
+      ⟨hs1, ninv_snapshot s h.ninv, h.jg, h.clean, h.store, x0.revOK h.rev, y0.idsBelow h.ids⟩
+    obtain ⟨s2, hrun, f2, x2, y2⟩ := runTL_full st body (snapshot s).1 (GethSpec.apply g .snapshot).1 f0 hok
+    cases ok with
+    | true =>
+      have e : sb = s2 := by
+        have : runT s (.frame true body) = some s2 := by simp only [runT, hrun]; rfl
+        rw [hra] at this; exact Option.some.inj this
+      subst e
+      exact ⟨hsim, hnb, by simp only [runGT, if_true]; exact f2.jg, f2.clean, hstore, hrev', hids'⟩
+    | false =>
+      obtain ⟨s3, h3, x3, e3, hj3, _⟩ := ext2_revert s s2 hc h.rev x2
+      obtain ⟨t1, _, _, _⟩ := extG_revert g _ h.ids y2
+      have e : sb = s3 := by
+        have : runT s (.frame false body) = some s3 := by simp only [runT, hrun]; exact h3
+        rw [hra] at this; exact Option.some.inj this
+      subst e
+      refine ⟨hsim, hnb, ?_, clean_of_obs st s sb h.store h.ninv hnb hj3 e3 h.clean, hstore, hrev', hids'⟩
+      simp only [runGT, Bool.false_eq_true, if_false]
+      intro e he a hd
+      rw [hj3] at he
+      rw [t1]
+      exact h.jg e he a hd
+theorem runTL_full (st : Store) (bs : List Tree) (s : S) (g : GethSpec.G) (h : Full st s g) (hok : Tree.OKL2 st bs) :
+    ∃ s', runTL s bs = some s' ∧ Full st s' (runGTL g bs) ∧ Ext2 s s' ∧ ExtG g (runGTL g bs) := by
+  cases bs with
+  | nil => exact ⟨s, rfl, h, Ext2.refl s h.sim.cache, ExtG.refl g⟩
+  | cons b t =>
+    simp only [Tree.OKL2] at hok
+    obtain ⟨s1, hr1, f1, x1, y1⟩ := runT_full st b s g h hok.1
+    obtain ⟨s2, hr2, f2, x2, y2⟩ := runTL_full st t s1 (runGT g b) f1 hok.2
+    exact ⟨s2, by simp only [runTL, hr1]; exact hr2, by simp only [runGTL]; exact f2, x1.trans x2, by simp only [runGTL]; exact y1.trans y2⟩
+end
+
+/-! ### the last step: what the two write-backs persist -/
+
+/-- how a persisted Nibiru account and a persisted reference account correspond; go-ethereum deletes an account that ends a
+    transaction empty, Nibiru persists it as an empty record — the two are identified -/
+def AcctRel : Option StoreAcc → Option (Nat × Nat × Int) → Prop
+  | some x, some y => y = (x.nonce, x.codeHash, x.balance * weiPerUnibi)
+  | none, none => True
+  | some x, none => x.nonce = 0 ∧ x.codeHash = 0 ∧ x.balance = 0
+  | none, some _ => False
+
+theorem view_parts {a : Nat} {B : GethSpec.Base} {p : Option (Nat × Nat × Int)} {f : Nat → Nat}
+    (h : GethSpec.view a B = (p, f)) : AList.find? B.accts a = p ∧ ∀ k, B.slot a k = f k :=
+  ⟨congrArg Prod.fst h, fun k => congrFun (congrArg Prod.snd h) k⟩
+
+theorem commit_suicided_absent (s : S) (hc : s.cache = none) (a : Nat) (o : Obj) (ho : AList.find? s.objs a = some o)
+    (hd : a ∈ s.dirties.map (·.1)) (hs : o.suicided = true) (hab : s.txStore.acct a = none) (k : Nat) :
+    (commit s).txStore.slot a k = s.txStore.slot a k := by
+  rw [commit_txStore s hc]
+  obtain ⟨acc', h1, h2⟩ := foldl_at stepC (atAddr a) a (stepC_frame a) (sortNat (s.dirties.map (·.1))) (s, s.txStore)
+    (sortNat_nodup _) (by rw [mem_sortNat]; exact hd)
+  rw [← commitInto_eq] at h2
+  unfold atAddr at h1 h2
+  have e1 : AList.find? acc'.1.objs a = some o := (congrArg (fun t => t.1) h1).trans ho
+  have e2 : acc'.2.acct a = s.txStore.acct a := congrArg (fun t => t.2.1) h1
+  have e3 : acc'.2.slot a k = s.txStore.slot a k := congrFun (congrArg (fun t => t.2.2) h1) k
+  have h3 := congrFun (congrArg (fun t => t.2.2) h2) k
+  simp only at h3
+  rw [h3, stepC_at_dead a acc' o e1 hs]
+  have : acc'.2.deleteAcct a = acc'.2 := by
+    unfold Store.deleteAcct
+    rw [e2, hab]
+  rw [this]; exact e3
+
+theorem dead_iff (x : GethSpec.Acc) (hs : x.suicided = false) :
+    GethSpec.dead x = true ↔ (x.nonce = 0 ∧ x.balance = 0 ∧ x.code = 0) := by
+  unfold GethSpec.dead
+  rw [hs]
+  simp [and_assoc]
+
+/-- **C03 (partial) — a whole transaction without precompile calls, through the write-back.** Over the same persisted data, for ANY
+    transaction body (any tree of writes, `CreateAccount` calls where `evm.create` may make them, and call frames nested to any
+    depth, returning or failing, on any accounts): Nibiru's journaled StateDB runs it to the end, and after `Commit` the store holds,
+    at EVERY address, what go-ethereum's own end-of-transaction write-back leaves in its state — the same nonce, code hash and
+    balance (an account go-ethereum deletes because it ended empty is an empty record in Nibiru) and the same value in every
+    storage slot.  Two side conditions, both about the final state and both guaranteed by the interpreter and the ante handler:
+    balances of the accounts Nibiru writes back are whole multiples of 10^12 wei (Nibiru's bank stores unibi), and an account that
+    ends the transaction empty without having self-destructed has no storage (only contract code writes storage). -/
+theorem C03_transaction_commit_matches_reference_partial (st : Store) (b : GethSpec.Base)
+    (hok : ∀ a, st.acct a = none → ∀ k, st.slot a k = 0)
+    (hacc : ∀ a, AList.find? b.accts a = (st.acct a).map (fun x => (x.nonce, x.codeHash, x.balance * weiPerUnibi)))
+    (hslot : ∀ a k, b.slot a k = st.slot a k) (body : List Tree) (hbody : Tree.OKL2 st body) :
+    ∃ s', runTL { txStore := st } body = some s' ∧
+      ((∀ a o, AList.find? s'.objs a = some o → a ∈ s'.dirties.map (·.1) → ∃ u : Int, o.balance = u * weiPerUnibi) →
+       (∀ a x, AList.find? (runGTL { base := b } body).tx.objs a = some x → x.suicided = false →
+          x.nonce = 0 → x.balance = 0 → x.code = 0 →
+          ∀ k, GethSpec.stateOf (runGTL { base := b } body) a x k = 0 ∧ b.slot a k = 0) →
+       ∀ a, AcctRel ((commit s').txStore.acct a) (AList.find? (GethSpec.commit (runGTL { base := b } body)).base.accts a) ∧
+            ∀ k, (commit s').txStore.slot a k = (GethSpec.commit (runGTL { base := b } body)).base.slot a k) := by
+  have f0 : Full st { txStore := st } { base := b } := by
+    refine ⟨sim_init st b hok hacc hslot, ninv_fresh st, fun e he => (by cases he), fun a _ => ?_, rfl, fun r hr => (by cases hr),
+      fun r hr => (by cases hr)⟩
+    have : objOf ({ txStore := st } : S) a = loadObj st a := rfl
+    rw [this]; exact OptEqv.refl _ _ _
+  obtain ⟨s', hrun, f, _, yg⟩ := runTL_full st body { txStore := st } { base := b } f0 hbody
+  refine ⟨s', hrun, fun hmult hempty a => ?_⟩
+  have hbase : (runGTL { base := b } body).base = b := yg.base
+  have hwf : WF s' := f.ninv.inv.1
+  have hc : s'.cache = none := hwf.1
+  have hw0 : weiPerUnibi ≠ 0 := by unfold weiPerUnibi; decide
+  have hrel := f.sim.objs a
+  by_cases hD : a ∈ s'.dirties.map (·.1)
+  · -- written back by Nibiru
+    obtain ⟨e, he, hde⟩ := (dj_mem s' f.ninv.dj a).mp hD
+    obtain ⟨o, ho⟩ := f.ninv.ec e he a hde
+    obtain ⟨x, hx⟩ := f.jg e he a hde
+    have hobj : objOf s' a = some o := by unfold objOf; rw [ho]
+    have hgobj : GethSpec.obj? (runGTL { base := b } body) a = some x := by unfold GethSpec.obj?; rw [hx]
+    rw [hobj, hgobj] at hrel
+    obtain ⟨r1, r2, r3, r4, r5, _⟩ := hrel
+    obtain ⟨ga, gs⟩ := view_parts (GethSpec.commit_at _ a x hx)
+    cases hsu : o.suicided with
+    | true =>
+      have hxs : x.suicided = true := by rw [← r4, hsu]
+      have hdead : GethSpec.dead x = true := by unfold GethSpec.dead; rw [hxs]; rfl
+      obtain ⟨p1, p2⟩ := commit_deletes_suicided s' hc a o ho hD hsu
+      rw [p1, ga, hdead]
+      refine ⟨True.intro, fun k => ?_⟩
+      rw [gs k, hdead]
+      simp only [if_true, hxs, Bool.true_or]
+      cases hy : s'.txStore.acct a with
+      | some y => exact p2 k y hy
+      | none =>
+        rw [commit_suicided_absent s' hc a o ho hD hsu hy k, f.store]
+        exact hok a (by rw [← f.store]; exact hy) k
+    | false =>
+      have hxs : x.suicided = false := by rw [← r4, hsu]
+      obtain ⟨p1, p2⟩ := commit_persists_view s' hwf a o ho hD hsu
+      rw [p1, ga]
+      cases hdead : GethSpec.dead x with
+      | true =>
+        obtain ⟨d1, d2, d3⟩ := (dead_iff x hxs).mp hdead
+        obtain ⟨z1, z2⟩ := fun k => hempty a x hx hxs d1 d2 d3 k |>.1, fun k => (hempty a x hx hxs d1 d2 d3 k).2
+        refine ⟨⟨by rw [r2]; exact d1, by rw [r3]; exact d3, by rw [r1, d2]; rfl⟩, fun k => ?_⟩
+        rw [p2 k, gs k, hdead, r5 k, z1 k]
+        simp only [if_true, hxs, Bool.false_or]
+        split
+        · rfl
+        · rw [hbase]; exact (z2 k).symm
+      | false =>
+        obtain ⟨u, hu⟩ := hmult a o ho hD
+        simp only [Bool.false_eq_true, if_false]
+        refine ⟨?_, fun k => ?_⟩
+        · show (x.nonce, x.code, x.balance) = (o.nonce, o.codeHash, Int.tdiv o.balance weiPerUnibi * weiPerUnibi)
+          rw [← r1, ← r2, ← r3, hu, Int.mul_tdiv_cancel _ hw0]
+        · rw [p2 k, gs k, hdead]
+          simp only [Bool.false_eq_true, if_false]
+          exact r5 k
+  · -- left alone by Nibiru
+    obtain ⟨p1, p2⟩ := commit_frame s' hc a hD
+    rw [f.store] at p1 p2
+    rw [p1]
+    cases hx : AList.find? (runGTL { base := b } body).tx.objs a with
+    | none =>
+      obtain ⟨ga, gs⟩ := view_parts (GethSpec.commit_untouched _ a hx)
+      rw [ga, hbase, hacc a]
+      refine ⟨?_, fun k => ?_⟩
+      · cases st.acct a with
+        | none => exact True.intro
+        | some y => rfl
+      · rw [p2 k, gs k, hbase]; exact (hslot a k).symm
+    | some x =>
+      have hgobj : GethSpec.obj? (runGTL { base := b } body) a = some x := by unfold GethSpec.obj?; rw [hx]
+      rw [hgobj] at hrel
+      have hcl := f.clean a hD
+      cases hobj : objOf s' a with
+      | none => rw [hobj] at hrel; exact False.elim hrel
+      | some o =>
+        rw [hobj] at hrel hcl
+        obtain ⟨r1, r2, r3, r4, r5, _⟩ := hrel
+        cases hl : loadObj st a with
+        | none => rw [hl] at hcl; exact False.elim hcl
+        | some L =>
+          rw [hl] at hcl
+          obtain ⟨q1, q2, q3, q4, _, q6⟩ := hcl
+          unfold loadObj at hl
+          cases hy : st.acct a with
+          | none => rw [hy] at hl; cases hl
+          | some y =>
+            rw [hy] at hl
+            simp only [Option.map] at hl
+            injection hl with hl
+            subst hl
+            simp only at q1 q2 q3 q4 q6
+            have hxs : x.suicided = false := by rw [← r4, q4]
+            have hstate : ∀ k, GethSpec.stateOf (runGTL { base := b } body) a x k = st.slot a k := by
+              intro k
+              rw [← r5 k, objState_eq, f.store]
+              have := q6 k
+              simp only [AList.find?] at this
+              exact this
+            obtain ⟨ga, gs⟩ := view_parts (GethSpec.commit_at _ a x hx)
+            rw [ga]
+            cases hdead : GethSpec.dead x with
+            | true =>
+              obtain ⟨d1, d2, d3⟩ := (dead_iff x hxs).mp hdead
+              have z := hempty a x hx hxs d1 d2 d3
+              refine ⟨⟨by rw [← q2, r2]; exact d1, by rw [← q3, r3]; exact d3, ?_⟩, fun k => ?_⟩
+              · have hb0 : y.balance * weiPerUnibi = 0 := by rw [← q1, r1]; exact d2
+                rcases Int.mul_eq_zero.mp hb0 with h0 | h0
+                · exact h0
+                · exact absurd h0 hw0
+              · rw [p2 k, gs k, hdead]
+                simp only [if_true, hxs, Bool.false_or]
+                have hz : st.slot a k = 0 := by rw [← hstate k]; exact (z k).1
+                split
+                · exact hz
+                · rw [hbase, (z k).2]; exact hz
+            | false =>
+              simp only [Bool.false_eq_true, if_false]
+              refine ⟨?_, fun k => ?_⟩
+              · show (x.nonce, x.code, x.balance) = (y.nonce, y.codeHash, y.balance * weiPerUnibi)
+                rw [← r1, ← r2, ← r3, q1, q2, q3]
+              · rw [p2 k, gs k, hdead]
+                simp only [Bool.false_eq_true, if_false]
+                exact (hstate k).symm
+
+/-! ### non-vacuity: a concrete transaction over a store with one contract -/
+
+/-- value arrives at the contract, a slot is rewritten; a frame that funds a new account, creates another and rewrites the slot fails;
+    a frame that bumps the nonce returns although a nested frame that self-destructs the contract fails; a fresh account is funded -/
+def demoTx : List Tree :=
+  [ .w (.addBalance 1 3000000000000), .w (.setState 1 0 5),
+    .frame false [ .w (.addBalance 2 7000000000000), .create 3, .w (.setNonce 3 1), .w (.setState 1 0 9) ],
+    .frame true [ .w (.setNonce 1 2), .frame false [ .w (.suicide 1) ] ],
+    .w (.addBalance 4 2000000000000) ]
+
+def demoFinal : S := (runTL { txStore := demoStore } demoTx).getD {}
+
+theorem demoStore_ok : ∀ a, demoStore.acct a = none → ∀ k, demoStore.slot a k = 0 := by
+  intro a ha k
+  by_cases h1 : a = 1
+  · subst h1; simp [demoStore, Store.acct, AList.find?] at ha
+  · have : ((1, 0) : Nat × Nat) ≠ (a, k) := fun e => h1 (congrArg Prod.fst e).symm
+    simp [demoStore, Store.slot, AList.find?, this]
+
+theorem demo_acc : ∀ a, AList.find? demoBase.accts a =
+    (demoStore.acct a).map (fun x => (x.nonce, x.codeHash, x.balance * weiPerUnibi)) := by
+  intro a
+  by_cases h1 : a = 1
+  · subst h1; simp [demoStore, demoBase, Store.acct, AList.find?, weiPerUnibi]
+  · have : (1 : Nat) ≠ a := fun e => h1 e.symm
+    simp [demoStore, demoBase, Store.acct, AList.find?, this]
+
+theorem demoTx_ok : Tree.OKL2 demoStore demoTx := by
+  simp only [demoTx, Tree.OKL2, Tree.OK2, and_true, true_and]
+  refine ⟨fun k => ?_, fun x hx => ?_⟩
+  · have : ((1, 0) : Nat × Nat) ≠ (3, k) := fun e => by cases e
+    simp [demoStore, Store.slot, AList.find?, this]
+  · simp [demoStore, Store.acct, AList.find?] at hx
+
+/-- the side conditions of the theorem hold for `demoTx`, so its conclusion does: after `Commit` every address holds what the
+    reference's write-back holds (account 1: nonce 2, code 7, 8 unibi, slot 0 = 5; account 4: 2 unibi; accounts 2 and 3: nothing) -/
+example : ∀ a, AcctRel ((commit demoFinal).txStore.acct a)
+      (AList.find? (GethSpec.commit (runGTL { base := demoBase } demoTx)).base.accts a) ∧
+    ∀ k, (commit demoFinal).txStore.slot a k = (GethSpec.commit (runGTL { base := demoBase } demoTx)).base.slot a k := by
+  obtain ⟨s', hr, h⟩ := C03_transaction_commit_matches_reference_partial demoStore demoBase demoStore_ok demo_acc (fun _ _ => rfl)
+    demoTx demoTx_ok
+  have e : s' = demoFinal := by unfold demoFinal; rw [hr]; rfl
+  subst e
+  apply h
+  · intro a o ho _
+    have hobjs : demoFinal.objs =
+        [(1, { balance := 8000000000000, nonce := 2, codeHash := 7, origin := [(0, 9)], dirty := [(0, 5)] }),
+         (4, { balance := 2000000000000 })] := by decide
+    rw [hobjs] at ho
+    by_cases h1 : a = 1
+    · subst h1
+      simp [AList.find?] at ho
+      subst ho
+      exact ⟨8, by simp [weiPerUnibi]⟩
+    · by_cases h4 : a = 4
+      · subst h4
+        simp [AList.find?] at ho
+        subst ho
+        exact ⟨2, by simp [weiPerUnibi]⟩
+      · have n1 : (1 : Nat) ≠ a := fun e => h1 e.symm
+        have n4 : (4 : Nat) ≠ a := fun e => h4 e.symm
+        simp [AList.find?, n1, n4] at ho
+  · intro a x hx _ hn hb _
+    have hobjs : (runGTL { base := demoBase } demoTx).tx.objs =
+        [(1, { balance := 8000000000000, nonce := 2, code := 7, storage := [(0, 5)] }),
+         (4, { balance := 2000000000000, fresh := true })] := by decide
+    rw [hobjs] at hx
+    by_cases h1 : a = 1
+    · subst h1
+      simp [AList.find?] at hx
+      subst hx
+      simp at hn
+    · by_cases h4 : a = 4
+      · subst h4
+        simp [AList.find?] at hx
+        subst hx
+        simp at hb
+      · have n1 : (1 : Nat) ≠ a := fun e => h1 e.symm
+        have n4 : (4 : Nat) ≠ a := fun e => h4 e.symm
+        simp [AList.find?, n1, n4] at hx
 
 end Nibiru.SDB
